@@ -526,6 +526,62 @@ pub fn gc(name: &str, wasm: &[u8], out: &mut Vec<Json>) {
         if have != used { out.push(v("gc-keeps-unused-type", "C07", format!("{}: after gc the type section has {} types, {} are used", name, have.len(), used.len()), wasm, String::new(), String::new())); } }
 }
 
+/// C19 / C17 (lookups by identity, by name, by kind): `get_exported_*`, `get_imported_func`, `funcs.by_name`, `tables.main_function_table`, `iter_local_mut`,
+/// `types.params_results`, `exports.remove_root` agree with the decoded binary read through the parse-time index maps
+pub fn lookups(name: &str, wasm: &[u8], out: &mut Vec<Json>) {
+    let a = match amod::decode(wasm) { Ok(a) => a, Err(_) => return };
+    let r = catch(|| -> Option<Vec<String>> {
+        let mut cfg = ModuleConfig::new(); cfg.generate_producers_section(false);
+        let (mut m, pm) = crate::irdump::parse_with_maps(wasm, &mut cfg).ok()?; let mut bad: Vec<String> = vec![];
+        let first_export = |k: u8, i: usize| a.exports.iter().find(|e| e.1 == k && e.2 as usize == i).map(|e| e.0.clone());
+        // exports by the identity of what they export: the FIRST export of that entity, none if it is not exported
+        for (i, ix) in pm.funcs.iter().enumerate() { let id = m.funcs.iter().find(|f| f.id().index() == *ix)?.id(); let got = m.exports.get_exported_func(id).map(|e| e.name.clone()); if got != first_export(0, i) { bad.push(format!("get_exported_func(function {}) = {:?}, the binary's first export of it is {:?}", i, got, first_export(0, i))); } }
+        for (i, ix) in pm.tables.iter().enumerate() { let id = m.tables.iter().find(|f| f.id().index() == *ix)?.id(); let got = m.exports.get_exported_table(id).map(|e| e.name.clone()); if got != first_export(1, i) { bad.push(format!("get_exported_table(table {}) = {:?}, expected {:?}", i, got, first_export(1, i))); } }
+        for (i, ix) in pm.memories.iter().enumerate() { let id = m.memories.iter().find(|f| f.id().index() == *ix)?.id(); let got = m.exports.get_exported_memory(id).map(|e| e.name.clone()); if got != first_export(2, i) { bad.push(format!("get_exported_memory(memory {}) = {:?}, expected {:?}", i, got, first_export(2, i))); } }
+        for (i, ix) in pm.globals.iter().enumerate() { let id = m.globals.iter().find(|f| f.id().index() == *ix)?.id(); let got = m.exports.get_exported_global(id).map(|e| e.name.clone()); if got != first_export(3, i) { bad.push(format!("get_exported_global(global {}) = {:?}, expected {:?}", i, got, first_export(3, i))); } }
+        // imports by the function they import
+        let imp_funcs: Vec<(String, String)> = a.imports.iter().filter(|i| matches!(i.2, AImportKind::Func(_))).map(|i| (i.0.clone(), i.1.clone())).collect();
+        for (i, ix) in pm.funcs.iter().enumerate() { let id = m.funcs.iter().find(|f| f.id().index() == *ix)?.id(); let got = m.imports.get_imported_func(id).map(|im| (im.module.clone(), im.name.clone())); let want = imp_funcs.get(i).cloned();
+            if got != want { bad.push(format!("get_imported_func(function {}) = {:?}, the binary imports it as {:?}", i, got, want)); } }
+        // by_name: the first function (in index order) carrying that name; an absent name resolves to nothing
+        let named: Vec<(usize, String)> = pm.funcs.iter().enumerate().filter_map(|(i, ix)| m.funcs.iter().find(|f| f.id().index() == *ix).and_then(|f| f.name.clone()).map(|n| (i, n))).collect();
+        for (i, n) in &named { let first = named.iter().find(|x| &x.1 == n).map(|x| x.0); let got = m.funcs.by_name(n).and_then(|id| pm.funcs.iter().position(|ix| *ix == id.index())); if got != first { bad.push(format!("funcs.by_name({:?}) = function {:?}, the first function with that name is {:?} (asked for function {})", n, got, first, i)); } }
+        if m.funcs.by_name("a-name-no-function-has\u{1}").is_some() { bad.push("funcs.by_name of an absent name resolves to a function".into()); }
+        // main_function_table: none / the only funcref table / an error for two
+        let n_func_tables = a.imports.iter().filter(|i| matches!(&i.2, AImportKind::Table(t) if t.elem == "funcref")).count() + a.tables.iter().filter(|t| t.elem == "funcref").count();
+        let all_tables: Vec<&crate::amod::ATable> = a.imports.iter().filter_map(|i| if let AImportKind::Table(t) = &i.2 { Some(t) } else { None }).chain(a.tables.iter()).collect();
+        match (n_func_tables, m.tables.main_function_table()) { (0, Ok(None)) => {}, (1, Ok(Some(id))) => { let want = all_tables.iter().position(|t| t.elem == "funcref").map(|k| pm.tables[k]); if Some(id.index()) != want { bad.push(format!("main_function_table = table id {}, the only funcref table has id {:?}", id.index(), want)); } },
+            (n, Err(_)) if n >= 2 => {}, (n, r) => bad.push(format!("main_function_table = {:?} for a module with {} funcref tables", r.map(|o| o.map(|i| i.index())).map_err(|e| e.to_string()), n)) }
+        // the local functions: shared and mutable iteration agree with each other and with the code section
+        let l1: Vec<usize> = m.funcs.iter_local().map(|(id, _)| id.index()).collect(); let l2: Vec<usize> = m.funcs.iter_local_mut().map(|(id, _)| id.index()).collect();
+        let ni = imp_funcs.len(); let want: Vec<usize> = pm.funcs[ni.min(pm.funcs.len())..].to_vec(); let mut l1s = l1.clone(); l1s.sort(); let mut ws = want.clone(); ws.sort();
+        if l1 != l2 || l1s != ws { bad.push(format!("iter_local yields function ids {:?}, iter_local_mut {:?}, the locally defined functions are {:?}", l1, l2, want)); }
+        // params_results of every type
+        for (i, ix) in pm.types.iter().enumerate() { if let Some(t) = m.types.iter().find(|t| t.id().index() == *ix) { let (p, q) = m.types.params_results(t.id()); let vs = |x: &wasmparser::ValType| -> String { match x { wasmparser::ValType::Ref(r) if *r == wasmparser::RefType::FUNCREF => "funcref".into(), wasmparser::ValType::Ref(r) if *r == wasmparser::RefType::EXTERNREF => "externref".into(), o => format!("{:?}", o).to_lowercase() } }; let wp: Vec<String> = a.types[i].0.iter().map(vs).collect(); let wq: Vec<String> = a.types[i].1.iter().map(vs).collect();
+            let gp: Vec<String> = p.iter().map(|x| format!("{}", x)).collect(); let gq: Vec<String> = q.iter().map(|x| format!("{}", x)).collect(); if gp != wp || gq != wq { bad.push(format!("types.params_results(type {}) = {:?} -> {:?}, the binary says {:?} -> {:?}", i, gp, gq, wp, wq)); } } }
+        // remove_root (deprecated alias of delete): exactly that export goes
+        let mid = m.exports.iter().map(|e| e.id()).nth(a.exports.len() / 2); if let Some(e) = mid { #[allow(deprecated)] m.exports.remove_root(e); let o = m.emit_wasm(); let b = amod::decode(&o).ok()?; let mut want: Vec<String> = a.exports.iter().map(|x| x.0.clone()).collect(); want.remove(a.exports.len() / 2); let got: Vec<String> = b.exports.iter().map(|x| x.0.clone()).collect();
+            if got != want { bad.push(format!("after exports.remove_root of export {} the exports are {:?}, expected {:?}", a.exports.len() / 2, got, want)); } }
+        Some(bad) });
+    match r { Some(Some(bad)) => for b in bad.into_iter().take(3) { out.push(v("lookup-wrong", "C19 C17", format!("{}: {}", name, b), wasm, String::new(), String::new())); },
+        Some(None) => {}, None => out.push(v("lookup-panics", "C19 C17 C02", format!("{}: a lookup by identity / name / kind panics", name), wasm, String::new(), String::new())) }
+}
+
+/// C14 (a module made with Module::with_config instead of a parse): the switches act on it the same way
+pub fn with_config_switches(out: &mut Vec<Json>) {
+    static DONE: std::sync::atomic::AtomicBool = std::sync::atomic::AtomicBool::new(false);
+    if DONE.swap(true, std::sync::atomic::Ordering::SeqCst) { return; }
+    for names in [false, true] { for prod in [false, true] {
+        let r = catch(|| { let mut c = ModuleConfig::new(); c.generate_name_section(names).generate_producers_section(prod); let mut m = Module::with_config(c);
+            let mut b = walrus::FunctionBuilder::new(&mut m.types, &[], &[]); b.name("made".to_string()); b.func_body().i32_const(1).drop(); let f = b.finish(vec![], &mut m.funcs); m.exports.add("made", f); m.name = Some("mod".into()); m.producers.add_sdk("verif-sdk", "1");   // something for the producers section to hold (nothing was parsed, so walrus has not recorded itself)
+            let o = m.emit_wasm(); let o2 = m.emit_wasm(); (o, o2) });
+        match r { None => out.push(v("with-config-panics", "C14 C02", format!("Module::with_config(names={}, producers={}): build or emit panics", names, prod), &[], String::new(), String::new())),
+            Some((o, o2)) => match amod::decode(&o) { Err(e) => out.push(v("with-config-output-undecodable", "C14 C02", format!("Module::with_config(names={}, producers={}): {}", names, prod, e), &o, String::new(), String::new())),
+                Ok(b) => { let has = |n: &str| b.sections.iter().filter(|s| *s == n).count();
+                    if has("custom:name") != names as usize || has("custom:producers") != prod as usize || o != o2 || amod::validate(&o, env::walrus_features(false)).is_err() || b.exports.len() != 1 || b.code.len() != 1 {
+                        out.push(v("config-switch-wrong", "C14", format!("Module::with_config(generate_name_section({}), generate_producers_section({})): the emitted sections are {:?}", names, prod, b.sections), &o, String::new(), String::new())); } } } } } }
+}
+
 pub fn all_module_oracles(name: &str, wasm: &[u8], out: &mut Vec<Json>) {
     let feats = env::walrus_features(false);
     if amod::validate(wasm, feats).is_err() { return; }
@@ -537,5 +593,5 @@ pub fn all_module_oracles(name: &str, wasm: &[u8], out: &mut Vec<Json>) {
     }
     // names again with synthetic names switched on: every real name of the input stays where it was
     { let mut scfg = ModuleConfig::new(); scfg.generate_producers_section(false).generate_synthetic_names_for_anonymous_items(true); if let Some(Ok(obs)) = catch(|| observe(wasm, &mut scfg)) { names(&format!("{} (synthetic names on)", name), wasm, &obs, true, out); } }
-    customs(name, wasm, out); customs_remove_raw(name, wasm, out); customs_typed(name, wasm, out); determinism(name, wasm, out); config(name, wasm, out); gc(name, wasm, out); emit_maps_after_import_move(name, wasm, out); emit_maps_after_import_added(name, wasm, out);
+    with_config_switches(out); lookups(name, wasm, out); customs(name, wasm, out); customs_remove_raw(name, wasm, out); customs_typed(name, wasm, out); determinism(name, wasm, out); config(name, wasm, out); gc(name, wasm, out); emit_maps_after_import_move(name, wasm, out); emit_maps_after_import_added(name, wasm, out);
 }
